@@ -9,3 +9,7 @@ pub mod arena_eng;
 #[global_allocator]
 static GLOBAL: ledger::Ledger = ledger::Ledger;
 pub mod multi_eng;
+pub mod celem;
+pub mod vec_eng;
+pub mod str_eng;
+pub mod coll_eng;
